@@ -56,58 +56,108 @@ func ruleAmountTable(c *Ctx, rule string) {
 			atoi[call] = n
 		}
 	})
+	// a non-constant result is "the k-th number read": distinct values are ranked by dominance order
 	desc := func(v ssa.Value, at ssa.Instruction) string {
 		if k, ok := v.(*ssa.Const); ok && k.Value != nil {
 			return k.Value.ExactString()
 		}
-		if ex, ok := v.(*ssa.Extract); ok && ex.Index == 0 {
-			if _, ok := atoi[ex.Tuple]; ok {
-				// number the Atoi calls in dominance order relative to this return
-				rank := 1
-				for call := range atoi {
-					if call != ex.Tuple && instrDominates(call.(ssa.Instruction), ex.Tuple.(ssa.Instruction)) && instrDominates(call.(ssa.Instruction), at) {
-						rank++
-					}
-				}
-				return fmt.Sprintf("N%d", rank)
+		ret := at.(*ssa.Return)
+		var others []ssa.Value
+		for _, o := range ret.Results[:4] {
+			if _, isConst := o.(*ssa.Const); !isConst && o != v {
+				others = append(others, o)
 			}
 		}
-		return "?" + exprStr(v)
+		rank := 1
+		vi, ok := v.(ssa.Instruction)
+		if !ok {
+			return "?" + exprStr(v)
+		}
+		for _, o := range others {
+			if oi, ok := o.(ssa.Instruction); ok && instrDominates(oi, vi) {
+				rank++
+			}
+		}
+		return fmt.Sprintf("N%d", rank)
 	}
-	got := map[string]string{}
-	gotPos := map[string]string{}
+	type retInfo struct {
+		pos, neg []string
+		tuple    string
+		at       string
+	}
+	var rets []retInfo
 	instrsOf(fn, func(in ssa.Instruction) {
 		ret, ok := in.(*ssa.Return)
 		if !ok || len(ret.Results) != 6 || !isNilConst(ret.Results[5]) {
 			return
 		}
 		pos, neg := c.kindLiterals(fn, cds, ret.Block())
-		key := strings.Join(pos, ",")
-		if contains(neg, "TAKE") && contains(pos, "SKIP") {
-			key += " (no TAKE)"
-		}
-		got[key] = fmt.Sprintf("(all=%s, skip=%s, take=%s, last=%s)", desc(ret.Results[0], ret), desc(ret.Results[1], ret), desc(ret.Results[2], ret), desc(ret.Results[3], ret))
-		gotPos[key] = c.pos(ret.Pos())
+		rets = append(rets, retInfo{pos, neg,
+			fmt.Sprintf("(all=%s, skip=%s, take=%s, last=%s)", desc(ret.Results[0], ret), desc(ret.Results[1], ret), desc(ret.Results[2], ret), desc(ret.Results[3], ret)),
+			c.pos(ret.Pos())})
 	})
-	r.Tables["amount_clauses"] = got
-	want := map[string][2]string{
-		"ALL":                   {"`all`", "(all=true, skip=0, take=0, last=0)"},
-		"NUMBER,SKIP (no TAKE)": {"`skip s`", "(all=true, skip=N1, take=0, last=0)"},
-		"NUMBER,SKIP,TAKE":      {"`skip s take t`", "(all=false, skip=N1, take=N2, last=0)"},
-		"NUMBER,TAKE,TOP":       {"`take t` / `top t`", "(all=false, skip=0, take=N1, last=0)"},
-		"LAST,NUMBER":           {"`last n`", "(all=true, skip=0, take=0, last=N1)"},
+	got := map[string]string{}
+	for _, ri := range rets {
+		got[strings.Join(ri.pos, ",")+" !"+strings.Join(ri.neg, ",")] = ri.tuple
 	}
-	for _, k := range sortedKeys(want) {
-		ob := r.Ob(rule, "parse_amount: clause "+want[k][0], gotPos[k])
-		g, ok := got[k]
-		if !ok {
-			ob.Und(fmt.Sprintf("no success return found under the token tests {%s}; found clauses: %v", k, sortedKeys(got)))
+	r.Tables["amount_clauses"] = got
+	// a clause is identified by the clause keywords it requires and excludes; aliases (an extra keyword that selects the same
+	// return) do not change its identity
+	type clause struct {
+		name         string
+		need, forbid []string
+		want         string
+	}
+	clauses := []clause{
+		{"`all`", []string{"ALL"}, nil, "(all=true, skip=0, take=0, last=0)"},
+		{"`skip s`", []string{"SKIP"}, []string{"TAKE"}, "(all=true, skip=N1, take=0, last=0)"},
+		{"`skip s take t`", []string{"SKIP", "TAKE"}, nil, "(all=false, skip=N1, take=N2, last=0)"},
+		{"`take t`", []string{"TAKE"}, []string{"SKIP"}, "(all=false, skip=0, take=N1, last=0)"},
+		{"`top t`", []string{"TOP"}, []string{"SKIP"}, "(all=false, skip=0, take=N1, last=0)"},
+		{"`last n`", []string{"LAST"}, nil, "(all=true, skip=0, take=0, last=N1)"},
+	}
+	for _, cl := range clauses {
+		ob := r.Ob(rule, "parse_amount: clause "+cl.name, c.pos(fn.Pos()))
+		var matches []retInfo
+		for _, ri := range rets {
+			ok := true
+			for _, k := range cl.need {
+				if !contains(ri.pos, k) {
+					ok = false
+				}
+			}
+			for _, k := range cl.forbid {
+				// excluded either by a negative test or by not being required positively on this path
+				if contains(ri.pos, k) && !contains(ri.neg, k) {
+					// `TAKE || TOP` makes both positive on the shared return: accept when the clause's own keyword is there too
+					if !(k == "SKIP") && contains(cl.need, "TAKE") || contains(cl.need, "TOP") {
+						continue
+					}
+					ok = false
+				}
+			}
+			if cl.name == "`skip s`" && !contains(ri.neg, "TAKE") {
+				ok = false
+			}
+			if ok {
+				matches = append(matches, ri)
+			}
+		}
+		if len(matches) == 0 {
+			ob.Und(fmt.Sprintf("no success return of parse_amount is controlled by the token tests %v; extracted: %v", cl.need, sortedKeys(got)))
 			continue
 		}
-		if g == want[k][1] {
-			ob.OKnt("returns " + g)
+		bad := ""
+		for _, m := range matches {
+			ob.Pos = m.at
+			if m.tuple != cl.want {
+				bad = m.tuple
+			}
+		}
+		if bad == "" {
+			ob.OKnt("returns " + cl.want)
 		} else {
-			ob.Bad(fmt.Sprintf("%s returns %s; the window semantics requires %s", want[k][0], g, want[k][1]))
+			ob.Bad(fmt.Sprintf("%s returns %s; the window semantics requires %s", cl.name, bad, cl.want))
 		}
 	}
 }
